@@ -23,8 +23,28 @@ import z3
 from .values import *   # noqa: F401,F403
 
 
+def is_generator(node):
+    """does this function body contain a yield of its own (not one of a nested function)?"""
+    r = getattr(node, "_vsx_is_gen", None)
+    if r is None:
+        r = False
+        if not isinstance(node, ast.Lambda):
+            stack = list(node.body)
+            while stack:
+                n = stack.pop()
+                if isinstance(n, (ast.Yield, ast.YieldFrom)):
+                    r = True
+                    break
+                if isinstance(n, (ast.FunctionDef, ast.AsyncFunctionDef, ast.Lambda, ast.ClassDef)):
+                    continue
+                stack.extend(ast.iter_child_nodes(n))
+        node._vsx_is_gen = r
+    return r
+
+
 class Frame:
-    __slots__ = ("locals", "globs", "func", "entry_g", "ret", "ret_g", "loops", "closure", "cls", "globals_declared", "nonlocals_declared")
+    __slots__ = ("locals", "globs", "func", "entry_g", "ret", "ret_g", "loops", "closure", "cls", "globals_declared", "nonlocals_declared",
+                 "yields")
 
     def __init__(self, locals_, globs, func=None, entry_g=True, closure=None, cls=None):
         self.locals = locals_
@@ -38,6 +58,7 @@ class Frame:
         self.cls = cls
         self.globals_declared = None
         self.nonlocals_declared = None
+        self.yields = None
 
 
 class Loop:
@@ -635,7 +656,7 @@ class Engine:
     def x_FunctionDef(self, st):
         fr = self.frame
         f = Func(st, fr.globs, fr.globs.get("__name__"), st.name,
-                 closure=fr if fr.func is not None else None)
+                 closure=fr if (fr.func is not None or (fr.cls is not None and fr.closure is not None)) else None)
         a = st.args
         f.defaults = [self.ev(d) for d in a.defaults]
         f.kwdefaults = [self.ev(d) if d is not None else NOTSET for d in a.kw_defaults]
@@ -676,7 +697,8 @@ class Engine:
         outer_qual = fr.cls.qual + "." if fr.cls is not None else ""
         ns = {}
         c = Cls(st.name, [b for b in bases if b is not None], ns, meta, fr.globs.get("__name__"), outer_qual + st.name)
-        body_frame = Frame(ns, fr.globs, func=None, entry_g=self.g, closure=fr if fr.func is not None else None, cls=c)
+        body_frame = Frame(ns, fr.globs, func=None, entry_g=self.g,
+                           closure=fr if (fr.func is not None or (fr.cls is not None and fr.closure is not None)) else None, cls=c)
         self.frame = body_frame
         try:
             self.exec_block(st.body)
@@ -796,6 +818,19 @@ class Engine:
                 self.setitem(o, self.ev(t.slice), v)
         elif isinstance(t, (ast.Tuple, ast.List)):
             vs = self.iterate(v)
+            stars = [i for i, tt in enumerate(t.elts) if isinstance(tt, ast.Starred)]
+            if stars:
+                if len(stars) > 1 or len(vs) < len(t.elts) - 1:
+                    self.throw("ValueError", "not enough values to unpack")
+                i = stars[0]
+                tail = len(t.elts) - i - 1
+                mid = vs[i:len(vs) - tail]
+                for tt, vv in zip(t.elts[:i], vs[:i]):
+                    self.assign(tt, vv)
+                self.assign(t.elts[i].value, self.mk_list(mid))
+                for tt, vv in zip(t.elts[i + 1:], vs[len(vs) - tail:]):
+                    self.assign(tt, vv)
+                return
             if len(vs) != len(t.elts):
                 self.throw("ValueError", "unpack length mismatch")
             for tt, vv in zip(t.elts, vs):
@@ -1099,6 +1134,83 @@ class Engine:
             raise exc
         self.after_region(g_try, esc0 if g_try is not True else NOTSET)
 
+    def x_With(self, st):
+        self._with(st, 0)
+
+    def _with(self, st, k):
+        if k == len(st.items):
+            self.exec_block(st.body)
+            return
+        item = st.items[k]
+        fr = self.frame
+        mgr = self.ev(item.context_expr)
+        exit_ = self.getattr(mgr, "__exit__")
+        v = self.call(self.getattr(mgr, "__enter__"), [], {})
+        if item.optional_vars is not None:
+            self.assign(item.optional_vars, v)
+        g_with = self.g
+        esc0 = self.esc()
+        exc = None
+        try:
+            self._with(st, k + 1)
+        except PyExc as e:
+            exc = e
+        if exc is not None:
+            self.g = True
+            r = self.call(exit_, [exc.cls, exc.obj, None], {})
+            if self.decide(self.truth(r)):
+                return
+            raise exc
+        before = (fr.ret, fr.ret_g)
+        self.g = g_with
+        self.call(exit_, [None, None, None], {})
+        if fr.ret is not before[0] or fr.ret_g is not before[1]:
+            raise Unsupported("return inside __exit__ frame")
+        self.after_region(g_with, esc0 if g_with is not True else NOTSET)
+
+    def x_Match(self, st):
+        subj = self.ev(st.subject)
+        for case in st.cases:
+            binds = {}
+            t = self.match_pattern(case.pattern, subj, binds)
+            if not self.decide(self.truth(t)):
+                continue
+            for k, v in binds.items():
+                self.store_name(k, v)
+            if case.guard is not None and not self.decide(self.truth(self.ev(case.guard))):
+                continue
+            self.exec_block(case.body)
+            return
+
+    def match_pattern(self, pat, subj, binds):
+        if isinstance(pat, ast.MatchValue):
+            return self.equal(subj, self.ev(pat.value))
+        if isinstance(pat, ast.MatchSingleton):
+            return self.identical(subj, pat.value)
+        if isinstance(pat, ast.MatchAs):
+            t = True if pat.pattern is None else self.match_pattern(pat.pattern, subj, binds)
+            if pat.name is not None:
+                binds[pat.name] = subj
+            return t
+        if isinstance(pat, ast.MatchOr):
+            for p_ in pat.patterns:
+                if self.decide(self.truth(self.match_pattern(p_, subj, binds))):
+                    return True
+            return False
+        if isinstance(pat, ast.MatchSequence):
+            if not isinstance(subj, (tuple, PList)) or any(isinstance(p_, ast.MatchStar) for p_ in pat.patterns):
+                if isinstance(subj, (tuple, PList)):
+                    raise Unsupported("starred sequence pattern")
+                return False
+            items = list(subj) if isinstance(subj, tuple) else list(subj.items)
+            if len(items) != len(pat.patterns):
+                return False
+            for p_, v in zip(pat.patterns, items):
+                if not self.decide(self.truth(self.match_pattern(p_, v, binds))):
+                    return False
+            return True
+        raise Unsupported(f"match pattern {type(pat).__name__}")
+
     def exc_matches(self, e, hc):
         if hc is None:
             return True
@@ -1139,6 +1251,16 @@ class Engine:
                     v = OPAQUE
                 if concrete and isinstance(v, (int, str)) and not isinstance(v, bool) and part.conversion == -1 and part.format_spec is None:
                     parts.append(str(v))
+                elif concrete and isinstance(v, (int, str)) and part.conversion in (-1, 115, 114):
+                    spec = self.e_JoinedStr(part.format_spec) if part.format_spec is not None else ""
+                    if not isinstance(spec, str):
+                        concrete = False
+                    else:
+                        try:
+                            vv = repr(v) if part.conversion == 114 else (str(v) if part.conversion == 115 else v)
+                            parts.append(format(vv, spec))
+                        except (ValueError, TypeError) as ex:
+                            self.throw(type(ex).__name__, str(ex))
                 else:
                     concrete = False
             elif isinstance(part, ast.Constant):
@@ -1891,6 +2013,10 @@ class Engine:
         return True
 
     def iterate(self, it):
+        if isinstance(it, PIter):
+            rest = it.items[it.pos:]
+            it.pos = len(it.items)
+            return rest
         if isinstance(it, range):
             return list(it)
         if isinstance(it, tuple):
@@ -1908,6 +2034,19 @@ class Engine:
         if isinstance(it, list):
             return list(it)
         if it is None or numeric(it):
+            self.throw("TypeError", "object is not iterable")
+        if isinstance(it, Obj):
+            f = it.cls.lookup("__iter__")
+            if isinstance(f, Func):
+                r = self.call(f, [it], {})
+                if isinstance(r, Obj) and r is it:
+                    raise Unsupported("hand-written iterator class")
+                return self.iterate(r)
+            g = it.cls.lookup("__getitem__")
+            ln = it.cls.lookup("__len__")
+            if isinstance(g, Func) and isinstance(ln, Func):
+                n = self.concretize(self.call(ln, [it], {}))
+                return [self.call(g, [it, i], {}) for i in range(n)]
             self.throw("TypeError", "object is not iterable")
         raise Unsupported(f"iteration over {type(it).__name__}")
 
@@ -1951,6 +2090,23 @@ class Engine:
 
     def e_Set(self, e):
         return tuple(self._elts(e.elts))          # sets are only used for membership tests in this code base
+
+    def e_Yield(self, e):
+        v = self.ev(e.value) if e.value is not None else None
+        self.commit()
+        fr = self.frame
+        if fr.yields is None:
+            raise Unsupported("yield outside a generator frame")
+        fr.yields.append(v)
+        if len(fr.yields) > 4096:
+            raise Inconclusive("generator yields more than 4096 values")
+        return None
+
+    def e_YieldFrom(self, e):
+        items = self.iterate(self.ev(e.value))
+        self.commit()
+        self.frame.yields.extend(items)
+        return None
 
     def e_NamedExpr(self, e):
         v = self.ev(e.value)
@@ -2031,6 +2187,8 @@ class Engine:
         if isinstance(o, PyExc):
             o = o.obj
             return self.getattr(o, name)
+        if isinstance(o, Native) and o.name == "int" and name == "from_bytes":
+            return Native(lambda *a, **k: self.methods[("int", "from_bytes")](self, *a, **k), "int.from_bytes")
         if isinstance(o, Native) and o.name in ("bytes", "bytearray"):
             if name == "maketrans":
                 def maketrans(frm, to):
@@ -2208,6 +2366,12 @@ class Engine:
         caller = self.frame
         g_call = self.g
         fr = Frame(loc, f.globs, func=f, entry_g=g_call, closure=f.closure)
+        if is_generator(f.node):
+            # generators run eagerly: the body is executed to the end and the yielded values are handed out afterwards
+            # (equal to lazy evaluation whenever consumer and generator do not interleave side effects on shared state;
+            # where they do, native replay and interpreter disagree and the run ends inconclusive, never in an alarm)
+            self.commit()
+            fr.yields = []
         self.depth += 1
         if self.depth > self.CALL_DEPTH:
             raise Inconclusive("call depth bound exceeded")
@@ -2230,6 +2394,8 @@ class Engine:
             self.depth -= 1
             self.region_serial = saved_region
         self.g = g_call
+        if fr.yields is not None:
+            return PIter(fr.yields)
         if fr.ret_g is False:
             return None
         if fr.ret_g is True or fr.ret_g is g_call:
